@@ -43,6 +43,7 @@ type BFSResult struct {
 	Samples        []string
 	PerDepth       []int
 	SelfLoops      int
+	Aux            map[string]int
 }
 
 type node[O any] struct {
@@ -219,5 +220,6 @@ func (b BFSResult) Coverage(rule string) Coverage {
 		"states_per_depth":              b.PerDepth,
 		"self_loops":                    b.SelfLoops,
 		"rule":                          rule,
+		"aux":                           b.Aux,
 	}
 }
